@@ -88,6 +88,19 @@ def _run_core(chk, S: Session):
 
 
 # ---------------------------------------------------------------------------
+def _canon_cmp(c, f):
+    """A comparison of the acceptance factor with a constant, oriented: 'f < 1.0' for both `f < 1.0` and `1.0 > f`."""
+    if isinstance(c, T.Term) and c.op in ("lt", "le", "gt", "ge") and len(c.args) == 2:
+        a, b = c.args
+        op = c.op
+        if b is f:
+            a, b = b, a
+            op = {"lt": "gt", "le": "ge", "gt": "lt", "ge": "le"}[op]
+        if a is f:
+            return f"f {dict(lt='<', le='<=', gt='>', ge='>=')[op]} {T.show(b, 2)}"
+    return T.show(c, 3)
+
+
 def rejection_rules(chk, S, r1, r2, r4):
     for clip in (True, False):
         cfg = {"clip_dt": clip}
@@ -135,10 +148,27 @@ def rejection_rules(chk, S, r1, r2, r4):
         new_acc = body.fields["acceptance_factor_proposed"]
         est = mcalls(body, "estimate_error_norm")
         stp = mcalls(body, "step")
+        # a NaN estimate may be mapped to a rejecting value first:  where(isnan(e), c, e)  with a constant c < 1
+        nan_guarded = False
+        core_acc = new_acc
+        if isinstance(new_acc, T.Term) and new_acc.op == "np.where" and len(new_acc.args) == 3:
+            c_, a_, b_ = new_acc.args
+            if isinstance(c_, T.Term) and c_.op == "np.isnan" and c_.args[0] is b_ and isinstance(a_, (int, float)) and not isinstance(a_, bool) and a_ < 1.0:
+                nan_guarded, core_acc = True, b_
         ok = (
-            isinstance(new_acc, T.Term) and new_acc.op == "getitem" and new_acc.args[1] == 0 and len(est) == 1 and new_acc.args[0] is est[0]
+            isinstance(core_acc, T.Term) and core_acc.op == "getitem" and core_acc.args[1] == 0 and len(est) == 1 and core_acc.args[0] is est[0]
             and len(stp) == 1 and named(est[0], "proposed") is stp[0]
         )
+        # R1c': a NaN estimate did not pass the acceptance test.  `continue while f < 1` stops on NaN (every comparison with NaN is false), i.e. accepts;
+        # `continue while not (f >= 1)` does not.
+        cnd = w["cond"]
+        nan_safe_cond = isinstance(cnd, T.Term) and cnd.op in ("not", "invert", "np.logical_not") and isinstance(cnd.args[0], T.Term) and cnd.args[0].op in ("ge", "gt") and cnd.args[0].args[0] is acc
+        if isinstance(cnd, T.Term) and cnd.op in ("or", "np.logical_or"):
+            nan_safe_cond = any(isinstance(x, T.Term) and x.op == "np.isnan" and x.args[0] is acc for x in cnd.args)
+        r1.require(nan_safe_cond or nan_guarded, "RejectionLoop.step: a NaN error estimate is a rejection" + ("" if (nan_safe_cond or nan_guarded) else f" [continue while {_canon_cmp(cnd, acc)}; factor stored unguarded]"),
+                   "the loop continues on NaN, or NaN is mapped to a rejecting factor",
+                   f"the loop continues while {T.show(cnd, 3)}: for a NaN estimate (an attempt far above the admissible step size, e.g. an overflowing vector field) the comparison is false, the loop stops and "
+                   "the attempt is promoted -- time advances through an attempt that did not pass the acceptance test; the factor is stored unguarded", site, cfg)
         r1.require(ok, "RejectionLoop.step_attempt.acceptance_factor_proposed", "factor = estimate_error_norm(..., proposed=solver.step(...))[0]",
                    f"acceptance factor of the attempt is {T.show(new_acc, 4)}; expected the first output of error.estimate_error_norm for this attempt's proposal", where_of(new_acc, site), cfg)
         new_prop = body.fields["proposed"]
